@@ -11,7 +11,8 @@ LEVEL = "exploration"
 RULE = ("Each base game is re-executed by the real code on (a) a rescaled copy (mu, sigma of every player and the model's "
         "mu, sigma, beta, tau and any per-call tau multiplied by f in {2^k, 10^-3..10^3, log-uniform}) and (b) for games "
         "with equal team sizes a shifted copy (one constant added to every mu, all shifted mu kept inside +-20beta). "
-        "rate(): scaling compared for PL/BT-full/BT-part only, shift for all models; posterior mu change and "
+        "The rescaled model is built both through the constructor and by multiplying the public attributes of an existing "
+        "model object in place (bit-equal results required). rate(): scaling compared for PL/BT-full/BT-part only, shift for all models; posterior mu change and "
         "rho=(sigma_post/sigma_inflated)^2 compared with tolerance T6 (incl. the W~ noise and V~ sign-jump allowances for "
         "TM ties). predict_win/draw/rank: every model, both transformations, 1e-11 absolute. Non-trivial: f != 1 / "
         "shift != 0 and the base game has a non-zero update; distinct by hash of (game, transformation).")
@@ -24,7 +25,7 @@ REACH = ["rate", "_compute", "i_map", "od_reduce", "predict_win", "predict_draw"
 def floors(tier):
     q = tier == "quick"
     return {"scale/rate": 20000 if q else 3200000, "shift/rate": 10000 if q else 1600000,
-            "scale/predict": 15000 if q else 2400000, "shift/predict": 6000 if q else 960000}
+            "scale/predict": 15000 if q else 2400000, "scale/in-place==constructed": 20000 if q else 3000000, "shift/predict": 6000 if q else 960000}
 
 
 def generate(ctx):
@@ -139,6 +140,36 @@ def probe_sc(ctx, payload):
                         bad = bad or dict(what="sigma", slot=[i, j], base=s1, scaled=s2, f=f, rho=[ra, rb], tol=tr)
             if bad:
                 ctx.violation("scale/rate", "sc", payload, bad, model, reg)
+    # the same rescaling done IN PLACE on an existing model object (model.beta *= f, ...): the public attributes are the
+    # model's parameters, so this must give exactly what a model constructed with the scaled values gives (same arithmetic)
+    if kind in ("PL", "BTF", "BTP", "TMF", "TMP"):
+        from ..util import build
+        from ..attach import observe
+
+        m_inpl, t_inpl, kw_inpl = build(dict(cs, cfg=case["cfg"]))
+        for attr in ("mu", "sigma", "beta", "tau"):
+            setattr(m_inpl, attr, getattr(m_inpl, attr) * f)
+        m_ctor, t_ctor, kw_ctor = build(cs)
+        same_params = all(getattr(m_inpl, a_) == getattr(m_ctor, a_) for a_ in ("mu", "sigma", "beta", "tau"))
+        if same_params:
+            for op in ("rate", "predict_win", "predict_draw", "predict_rank"):
+                if op == "rate":
+                    o1, o2 = observe(m_inpl, "rate", t_inpl, **kw_inpl), observe(m_ctor, "rate", t_ctor, **kw_ctor)
+                    g1 = None if o1.exc else [(p_.mu, p_.sigma) for t_ in o1.res for p_ in t_]
+                    g2 = None if o2.exc else [(p_.mu, p_.sigma) for t_ in o2.res for p_ in t_]
+                else:
+                    m_a, t_a, _ = build(dict(cs, cfg=case["cfg"]))
+                    for attr in ("mu", "sigma", "beta", "tau"):
+                        setattr(m_a, attr, getattr(m_a, attr) * f)
+                    m_b, t_b, _ = build(cs)
+                    o1, o2 = observe(m_a, op, t_a), observe(m_b, op, t_b)
+                    g1, g2 = (None if o1.exc else repr(o1.res)), (None if o2.exc else repr(o2.res))
+                ctx.ev("scale/in-place==constructed")
+                if g1 != g2:
+                    ctx.violation("scale/in-place==constructed", "sc", payload,
+                                  dict(op=op, f=f, in_place=repr(g1)[:160], constructed=repr(g2)[:160]), model, reg)
+        else:
+            ctx.skip("scale/in-place==constructed")
     ctx.bucket("scale_factor_decade", int(math.floor(math.log10(f))))
     _cmp_preds(ctx, "scale/predict", payload, case, cs, model, reg)
     ctx.case(dict(c=case, f=f), f != 1 and upd)
